@@ -722,6 +722,24 @@ pub type D { #[base] pub a: A, #[base] pub b: B }\nimpl D {\n    #[address(0x40)
             if got == want { None } else { Some((format!("{want:?}"), format!("{got:?}"))) } }
             _ => Some(("accepted".into(), o.tag())) }, out, "inherited-functions");
         case(vec![("m", "pub type T { pub x: u32 }\nimpl T {\n    #[address(1)]\n    pub fn f(&self);\n    #[address(2)]\n    pub fn f(&self);\n}\n".into())], 4, &expect_err, out, "inherited-functions");
+        // the types in a function's signature bind by the same scoping rules as field types (own module before `use other;`)
+        case(vec![("a", "pub type T { pub x: u8 }".to_string()), ("c", "use a;\npub type T { pub x: u32 }\npub type U { pub y: u32 }\nimpl U {\n    #[address(0x10)]\n    pub fn f(&self, p: *const T) -> *mut T;\n}\n".to_string())], 4, &|o| match o { Outcome::Ok(st) => {
+            let Some((_, td)) = get_type(st, "c::U") else { return Some(("c::U".into(), "missing".into())) };
+            let Some(f) = td.associated_functions.iter().find(|f| f.name == "f") else { return Some(("function f".into(), "missing".into())) };
+            let want_arg = Argument::Field("p".into(), Type::raw("c::T").const_pointer());
+            let want_ret = Some(Type::raw("c::T").mut_pointer());
+            if f.arguments.get(1) == Some(&want_arg) && f.return_type == want_ret { None } else { Some((format!("p: {want_arg:?} -> {want_ret:?}"), format!("{:?} -> {:?}", f.arguments.get(1), f.return_type))) } }
+            _ => Some(("accepted".into(), o.tag())) }, out, "inherited-functions");
+        // a renamed function takes its NEW name: a later base function of that very name is renamed in turn, and the
+        // derived type's own impl may not define it again
+        let chain = "pub type A { pub x: u32 }\nimpl A {\n    #[address(0x10)]\n    pub fn foo(&self);\n}\npub type B { pub y: u32 }\nimpl B {\n    #[address(0x20)]\n    pub fn foo(&self);\n}\npub type C { pub z: u32 }\nimpl C {\n    #[address(0x30)]\n    pub fn b_foo(&self);\n}\n";
+        case(vec![("m", format!("{chain}pub type D {{ #[base] pub a: A, #[base] pub b: B, #[base] pub c: C }}\n"))], 4, &|o| match o { Outcome::Ok(st) => {
+            let Some((_, td)) = get_type(st, "m::D") else { return Some(("m::D".into(), "missing".into())) };
+            let got: Vec<String> = td.associated_functions.iter().map(|f| format!("{}|{:?}", f.name, f.body)).collect();
+            let want = vec!["foo|Field { field: \"a\", function_name: \"foo\" }".to_string(), "b_foo|Field { field: \"b\", function_name: \"foo\" }".to_string(), "c_b_foo|Field { field: \"c\", function_name: \"b_foo\" }".to_string()];
+            if got == want { None } else { Some((format!("{want:?}"), format!("{got:?}"))) } }
+            _ => Some(("accepted".into(), o.tag())) }, out, "inherited-functions");
+        case(vec![("m", format!("{chain}pub type D {{ #[base] pub a: A, #[base] pub b: B }}\nimpl D {{\n    #[address(0x40)]\n    pub fn b_foo(&self);\n}}\n"))], 4, &expect_err, out, "inherited-functions");
     }
     if props.contains("C15") || props.contains("C17") {
         // an extern value without an address is rejected even after one that has an address
